@@ -116,7 +116,17 @@ void run_one( vcase::Case const& c )
         }
     },
     [&]( int ) { cds::threading::Manager::attachThread(); },
-    [&]( int ) { cds::threading::Manager::detachThread(); },
+    [&]( int ) {
+        // vcase::run_workers lets a worker detach as soon as it is finished; detaching runs an SMR scan that frees
+        // retired nodes, whose addresses the allocator would then hand to the workers still running (the model's
+        // allocator never reuses a node).  Wait until every worker has left the scheduled region.
+        int n = (int) c.threads.size();
+        for (;;) {
+            { std::lock_guard<std::mutex> lk( vs::S().m ); if ( vs::S().nfinished >= n ) break; }
+            std::this_thread::yield();
+        }
+        cds::threading::Manager::detachThread();
+    },
     20000 );
     vcase::print_log( c );
     // monitor: what is left in the queue, dequeued sequentially (main thread, not scheduled, not logged)
